@@ -8,7 +8,12 @@ from contextlib import suppress
 from functools import reduce
 
 import claripy
-from claripy.annotation import RegionAnnotation, StridedIntervalAnnotation, UninitializedAnnotation
+from claripy.annotation import (
+    RegionAnnotation,
+    SimplificationAvoidanceAnnotation,
+    StridedIntervalAnnotation,
+    UninitializedAnnotation,
+)
 from claripy.ast import BV, Base
 from claripy.backends.backend import Backend
 from claripy.backends.backend_vsa.balancer import Balancer
@@ -301,6 +306,10 @@ class BackendVSA(Backend):
 
         if isinstance(o, BoolResult) and isinstance(a, UninitializedAnnotation):
             # TODO: Do we want to do anything here?
+            return o
+
+        if type(a) is SimplificationAvoidanceAnnotation:
+            # carries no value information: it only keeps the annotated expression from being simplified
             return o
 
         raise ValueError(f"Unsupported annotation type {type(a)} for object {type(o)}")
